@@ -596,4 +596,5 @@ Proof.
   - pose proof (hold_dec_frame s rk) as (? & ? & ?). eapply (idx_inv_ext s); eauto.
   - destruct (end_block_idx (fun _ => True) (fun _ _ _ _ _ => Logic.I) (fun _ _ _ => Logic.I) s I Logic.I) as (A & _). exact A.
   - destruct (nst_balance s staker asset x) as [s'|] eqn:E; simpl; [|exact I]. eapply nst_balance_idx; eauto.
+  - exact I.
 Qed.
